@@ -35,7 +35,26 @@ PER_CASE = 25
 def lanes(tier):
     if tier == "quick":
         return [("plain", "plain", 1200), ("san", "san", 160), ("big", "plain", 64)]
-    return [("plain", "plain", 12000), ("san", "san", 1600), ("exh", "plain", 400), ("big", "plain", 1200), ("bigsan", "san", 120)]
+    return [("plain", "plain", 12000), ("san", "san", 1600), ("exh", "plain", 400), ("big", "plain", 1200), ("bigsan", "san", 120), ("vg", "vg", 12)]
+
+
+def solve_only(inst, counters):
+    """The real solver without an oracle: the deciding monitor of the vg lane is valgrind memcheck (uninitialised values,
+    invalid accesses in the native code), which the ASan/UBSan lanes cannot see."""
+    from whatshap.core import PedigreeDPTable
+
+    rs, ped, order = build_real(inst)
+    positions = inst["positions"] if inst.get("explicit_positions", True) else None
+    try:
+        table = PedigreeDPTable(rs, inst["recomb"], ped, inst["distrust"], positions)
+        cost = table.get_optimal_cost()
+        superreads, tvec = table.get_super_reads()
+        part = table.get_optimal_partitioning()
+        alleles = [[v.allele for v in sr] for srs in superreads for sr in srs]
+        counters["vg_alleles_read"] = counters.get("vg_alleles_read", 0) + sum(len(a) for a in alleles)
+    except RuntimeError:
+        counters["vg_infeasible"] = counters.get("vg_infeasible", 0) + 1
+    counters["vg_solved"] = counters.get("vg_solved", 0) + 1
 
 
 def gen_big(rng):
@@ -398,7 +417,14 @@ def run_case(idx, rng, tier, lane):
     sample = None
     case = None
     try:
-        if lane in ("big", "bigsan"):
+        if lane == "vg":
+            for j in range(14):
+                inst = gen_big(rng) if j % 7 == 6 else _gen(rng, tier, "san")
+                solve_only(inst, counters)
+                if len(inst["positions"]) >= 2:
+                    keys.add(_key(inst))
+                sample = {"kind": inst["kind"], "n_reads": len(inst["reads"]), "n_columns": len(inst["positions"]), "lane": "valgrind memcheck, no oracle"}
+        elif lane in ("big", "bigsan"):
             for j in range(6 if lane == "big" else 3):
                 inst = gen_deep(rng) if (j == 0 and idx % 2 == 0) else gen_big(rng)
                 if inst["kind"] == "deep":
